@@ -29,6 +29,7 @@ DEFAULT_FEATURES = dict(
     nonname_test=True,  # attribute / subscript / call / unary / constant / ifexp as if/while test
     shadow_builtins=True,  # locals named iter / next; sentinel string as value
     for_loops=True,
+    for_tuple_target=True,  # for u, v in enumerate(...): the desugaring's "target = None" cannot be unpacked
     while_loops=True,
     ifexp=True,
     is_none=True,
@@ -216,7 +217,12 @@ class _Gen:
             else:
                 tv = f"i{len(self.forvars)}"
                 self.forvars.append(tv)
-            o = [f"for {tv} in it({self.tag()}):"] + ind(self.suite(depth + 1, True, need_effect=not self.f["empty_arms"]))
+            if self.f["for_tuple_target"] and self.i(0, 5) == 0:
+                tv2 = self.var(True) if self.f["loopvar_live"] else f"j{len(self.forvars)}"
+                head = f"for {tv}, {tv2} in enumerate(it({self.tag()})):" if tv != tv2 else f"for {tv} in it({self.tag()}):"
+            else:
+                head = f"for {tv} in it({self.tag()}):"
+            o = [head] + ind(self.suite(depth + 1, True, need_effect=not self.f["empty_arms"]))
             if self.i(0, 9) < 3:
                 o += ["else:"] + ind(self.suite(depth + 1, inloop))
             return o
@@ -303,6 +309,8 @@ def features(src: str) -> set[str]:
             t = node.test
             if not isinstance(t, (ast.Name, ast.Compare, ast.BoolOp)):
                 tags.add("nonname_test")
+        if isinstance(node, ast.For) and not isinstance(node.target, ast.Name):
+            tags.add("for_tuple_target")
         if isinstance(node, ast.BoolOp):
             tags.add("boolop")
             for v in node.values[1:]:
